@@ -165,6 +165,8 @@ class LasData:
         LaspyException: if you try to remove an extra dimension that do not exist.
 
         """
+        # the names may come as a one-shot iterable, and a name may be given twice
+        names = list(dict.fromkeys(names))
         extra_dimension_names = list(self.point_format.extra_dimension_names)
         not_extra_dimension = [
             name for name in names if name not in extra_dimension_names
